@@ -490,8 +490,27 @@ def gen_b(rng: random.Random, A: dict, links_ok: bool = True, clashes: bool = Tr
             s["args"].append({"name": nm("arg"), "type": spell(rng, tn)})
             expect.append({"page": ("proc", s["name"]), "text": tn, "alt": alias.get(tn), "target": ("A", visible["types"][tn]["tracer"]),
                            "why": "argument of external type"})
-        for pn_ in vprocs[:2]:
-            s["calls"].append(pn_)
+        # calls of A's procedures (the statement's "calls"): a subroutine, a function reference, a generic
+        # name, a type-bound procedure through the argument of A's type - visible in B's call graphs only
+        arg0 = s["args"][0] if s["args"] else None
+        arg0_type = visible["types"][vtypes[0]] if arg0 else None
+        for pn_ in vprocs:
+            if len(s["calls"]) >= 3:
+                break
+            e = visible["procs"][pn_]
+            c = call_of(A, e, spell(rng, pn_), arg0, arg0_type)
+            # (one call per identifier and scope: FORD registers the calls of a procedure by their last name, so of
+            # `x = f(x)` and `call obj%f()` only the first is kept - a matter of the call graph, not of this property)
+            if c is None or (arg0_type is not None and pn_ in {b["name"].lower() for b in arg0_type["bound"][:2]}):
+                continue
+            s["calls"].append(c)
+            expect.append({"page": ("proc", s["name"]), "text": pn_, "alt": alias.get(pn_), "target": ("A", e["tracer"]),
+                           "why": "call of external " + c["kind"], "graph": True})
+        if arg0_type is not None:
+            for b in arg0_type["bound"][:2]:
+                s["calls"].append({"kind": "binding", "stmt": f"call {arg0['name']}%{spell(rng, b['name'])}()"})
+                expect.append({"page": ("proc", s["name"]), "text": b["name"], "target": ("A", b["tracer"]),
+                               "why": "call of external type-bound procedure", "graph": True})
         if rng.random() < 0.5 and amods:
             # procedure-level use
             am = rng.choice([m for m in amods if not (clash_mod and m["name"].lower() == clash_mod["name"].lower())] or amods)
@@ -545,7 +564,52 @@ def gen_b(rng: random.Random, A: dict, links_ok: bool = True, clashes: bool = Tr
                 expect.append({"page": page, "text": name, "target": ("A", tracer), "ford_link": True,
                                "why": why + (" (identifier shared by several entities of A)" if count.get(name.lower(), 0) > 1 else "")})
         bmods.append(bm)
-    return {"modules": bmods, "expect": expect, "has_clash_module": clash_mod is not None}
+    # ---- a main program of B that uses a module of A and calls its procedures
+    program = None
+    free = [m for m in amods if not (clash_mod and m["name"].lower() == clash_mod["name"].lower())]
+    if free and rng.random() < 0.5:
+        am = rng.choice(free)
+        program = {"name": nm("prog"), "tracer": ctr.tracer(), "use": spell(rng, am["name"]), "calls": []}
+        ppage = ("program", program["name"])
+        expect.append({"page": ppage, "text": am["name"], "target": ("A", am["tracer"]), "why": "use in program"})
+        taken = {x["name"].lower() for mm in bmods for x in mm["types"] + mm["subs"]}
+        org = origin(A, am["name"])
+        for n in sorted(public_names(A, am["name"])["procs"]):
+            if n in taken or len(program["calls"]) >= 2:
+                continue
+            e = find_entity(A, org[n], "procs")
+            c = call_of(A, e, spell(rng, n), None, None)
+            if c is None:
+                continue
+            program["calls"].append(c)
+            expect.append({"page": ppage, "text": n, "alt": org[n] if org[n] != n else None, "target": ("A", e["tracer"]),
+                           "why": "call of external " + c["kind"] + " (program)", "graph": True})
+    return {"modules": bmods, "expect": expect, "has_clash_module": clash_mod is not None, "program": program}
+
+
+def call_of(A, e, spelled, arg0, arg0_type):
+    """a statement of valid Fortran that calls / references the procedure `e` of A under the name `spelled`
+    (None: no simple call fits - a constructor, a procedure taking a type the caller has no object of)"""
+    for m in A["modules"]:
+        for i, f in enumerate(m["funcs"]):
+            if f is e:
+                if f.get("returns"):
+                    return None
+                v = "k" if i % 2 == 0 else "x"
+                return {"kind": "function", "stmt": f"{v} = {spelled}({v})"}
+        for s_ in m["subs"]:
+            if s_ is e:
+                if s_.get("self"):
+                    if arg0 is None or arg0_type is None or arg0_type["name"].lower() != s_["self"].lower():
+                        return None
+                    return {"kind": "subroutine", "stmt": f"call {spelled}({arg0['name']})"}
+                return {"kind": "subroutine", "stmt": f"call {spelled}(k)"}
+        for g in m["generics"]:
+            if g is e:
+                if g.get("ctor_of"):
+                    return None
+                return {"kind": "generic", "stmt": f"k = {spelled}(k)"}
+    return None
 
 
 CLASS_KINDS = {"procs": ("func", "sub", "generic"), "absints": ("absint",), "types": ("type",), "vars": ("var",)}
@@ -608,13 +672,21 @@ def render_b(B, rng) -> dict:
             for a in s["args"]:
                 L.append(f"    type({a['type']}), intent(inout) :: {a['name']}")
             L.append("    integer :: k")
+            L.append("    real :: x")
             L.append("    k = 1")
+            L.append("    x = 1.0")
             for c in s.get("calls", []):
-                L.append(f"    ! {c}")
+                L.append(f"    {c['stmt']}")
             L.append(f"  end subroutine {s['name']}")
         L.append(f"end module {m['name']}")
         chunks.append((m["name"], L))
     files = {}
     for name, L in chunks:
         files[f"{name.lower()}_b.f90"] = "\n".join(L) + "\n"
+    pr = B.get("program")
+    if pr:
+        L = [f"program {pr['name']}", f"  !! {pr['tracer']} program doc", f"  use {pr['use']}", "  implicit none",
+             "  integer :: k", "  real :: x", "  k = 1", "  x = 1.0"] + [f"  {c['stmt']}" for c in pr["calls"]] + \
+            [f"end program {pr['name']}"]
+        files[f"{pr['name'].lower()}_b.f90"] = "\n".join(L) + "\n"
     return files
